@@ -67,7 +67,7 @@ def parse : List String → Option QIn
     (the world answers them in any order the schedule likes: `hookidx k e` completes the k-th pending one).  The model
     PREDICTS which stream's hook that is; the harness compares it with the hook the real layer had emitted. -/
 structure DState where
-  m : Mux C29.State
+  mq : MuxQ C29.State
   pend : List (Option Nat)
 
 def hookOwners (outs : List QOut) : List (Option Nat) :=
@@ -79,7 +79,14 @@ def showOwner : Option Nat → String
 
 def stepLine (d : DState) (line : String) : DState × String :=
   match fields line with
-  | ["reset"] => (⟨Mux.init relayOps, []⟩, "ok")
+  | ["reset"] => (⟨MuxQ.init relayOps true, []⟩, "ok")
+  | ["resetq"] => (⟨MuxQ.init relayOps false, []⟩, "ok")      -- the server connection is not up yet
+  | ["connectq", e] =>
+    match bool? e with
+    | some err =>
+      let r := stepQ relayOps d.mq (.connectDone err)
+      (⟨r.1, d.pend ++ hookOwners r.2⟩, render r.1.m r.2)
+    | none => (d, "bad-op")
   | ["hookidx", k, e] =>
     match k.toNat?, (if e = "none" then some none else (hexOr e).map some) with
     | some k, some ed =>
@@ -87,14 +94,14 @@ def stepLine (d : DState) (line : String) : DState × String :=
       else
         let i := k % d.pend.length
         let ow := (d.pend[i]?).getD none
-        let r := step relayOps d.m (.hookDone ow ed)
-        (⟨r.1, d.pend.eraseIdx i ++ hookOwners r.2⟩, "own=" ++ showOwner ow ++ " " ++ render r.1 r.2)
+        let r := stepQ relayOps d.mq (.ev (.hookDone ow ed))
+        (⟨r.1, d.pend.eraseIdx i ++ hookOwners r.2⟩, "own=" ++ showOwner ow ++ " " ++ render r.1.m r.2)
     | _, _ => (d, "bad-op")
   | fs =>
     match parse fs with
-    | some i => let r := step relayOps d.m i; (⟨r.1, d.pend ++ hookOwners r.2⟩, render r.1 r.2)
+    | some i => let r := stepQ relayOps d.mq (.ev i); (⟨r.1, d.pend ++ hookOwners r.2⟩, render r.1.m r.2)
     | none => (d, "bad-op")
 
 end C30Driver
 
-def main : IO Unit := runState C30Driver.stepLine ⟨Mux.init relayOps, []⟩
+def main : IO Unit := runState C30Driver.stepLine ⟨MuxQ.init relayOps true, []⟩
